@@ -121,23 +121,42 @@ Theorem C30_unit_vector_wrap :
 Proof. exact unit_vector_wrap. Qed.
 Print Assumptions C30_unit_vector_wrap .
 
-(** find: f(index of the first occurrence of a), f(e) if absent, or the raw pair (nf, f(ix)) *)
+(** find: f(index of the first occurrence of a), f(e) if absent, or the raw pair (nf, f(ix));
+    F = effective f (find_F); a given cs_f must satisfy cs_f(b, i) = F(i + b), b in {0, 1} *)
 Theorem C30_find_correct :
   forall (x : list Z) (a : aarg) (bits : bool) (e : earg)
          (f : option (Z -> list Z)) (cs_f : option (Z -> Z -> list Z)) (F : Z -> list Z),
     find_wf x a bits ->
     find_F f cs_f = Some F ->
     (forall i j, length (F i) = length (F j)) ->
-    (forall cs, cs_f = Some cs -> forall i, 0 <= i -> cs 1 i = cs 0 (i + 1)) ->
+    (forall cs, cs_f = Some cs -> forall i, 0 <= i -> cs 0 i = F i /\ cs 1 i = F (i + 1)) ->
     find x a bits e f cs_f = Some (find_result x (aval a) e F).
 Proof. exact find_correct. Qed.
 Print Assumptions C30_find_correct .
 
-(** FINDING: with both f and cs_f the call always raises *)
-Theorem C30_find_both_refuted :
-  forall x a bits e f cs, find x a bits e (Some f) (Some cs) = None.
-Proof. exact find_both_refuted. Qed.
-Print Assumptions C30_find_both_refuted .
+(** both f and cs_f given, consistent by the docstring's (star): same result as with f alone
+    (repaired in /repo by f1f6f50; was F-C30-1) *)
+Theorem C30_find_both_correct :
+  forall (x : list Z) (a : aarg) (bits : bool) (e : earg) (f : Z -> list Z) (cs : Z -> Z -> list Z),
+    find_wf x a bits ->
+    (forall i j, length (f i) = length (f j)) ->
+    (forall i, 0 <= i -> cs 0 i = f i /\ cs 1 i = f (i + 1)) ->
+    find x a bits e (Some f) (Some cs) = Some (find_result x (aval a) e f).
+Proof. exact find_both_correct. Qed.
+Print Assumptions C30_find_both_correct .
+
+(** the empty list, every form of a incl. public a = 1 (repaired in /repo by 7bf810d; was F-C30-2) *)
+Theorem C30_find_empty :
+  forall (a : aarg) (bits : bool) (e : earg)
+         (f : option (Z -> list Z)) (cs_f : option (Z -> Z -> list Z)) (F : Z -> list Z),
+    find_F f cs_f = Some F ->
+    (forall i j, length (F i) = length (F j)) ->
+    (forall cs, cs_f = Some cs -> forall i, 0 <= i -> cs 0 i = F i /\ cs 1 i = F (i + 1)) ->
+    (bits = true -> isbit (aval a)) ->
+    find [] a bits e f cs_f
+    = Some (match e with ERaw => (Some 1, F 0) | EStr off => (None, F (0 + off)) | EVal v => (None, F v) end).
+Proof. exact find_empty. Qed.
+Print Assumptions C30_find_empty .
 
 (** gcp2 = 2^t, t the position of the lowest 1 of a or b; 2^l if there is none below l *)
 Theorem C30_gcp2_correct :
@@ -151,7 +170,7 @@ Print Assumptions C30_gcp2_correct .
 
 Theorem C30_gcp2_zero :
   forall (p : Z) (L : nat) (A B : Z) (l : nat) (ra : list Z) (da : Z) (rb : list Z) (db : Z),
-    (l <= L)%nat -> (1 <= l)%nat -> tape_ok p L A l ra da -> tape_ok p L B l rb db ->
+    (l <= L)%nat -> tape_ok p L A l ra da -> tape_ok p L B l rb db ->
     A mod 2 ^ Z.of_nat l = 0 -> B mod 2 ^ Z.of_nat l = 0 ->
     gcp2 p L A B l ra da rb db = Some (2 ^ Z.of_nat l).
 Proof. exact gcp2_zero. Qed.
@@ -189,11 +208,12 @@ Example C30_nonvacuous_find :
   find_wf [1;1;0;1;0] (ASec 0) true /\
   find [1;1;0;1;0] (ASec 0) true (EStr 0) (Some (fun i => [i; i * i])) None = Some (None, [2; 4]) /\
   find [1;1;1] (AInt 0) true (EVal (-1)) None (Some (fun b i => [i + b])) = Some (None, [-1]) /\
-  find [1;1;1] (AInt 0) true ERaw None None = Some (Some 1, [3]).
+  find [1;1;1] (AInt 0) true ERaw None None = Some (Some 1, [3]) /\
+  find [1;0] (AInt 0) true (EStr 0) (Some (fun i => [2 * i])) (Some (fun b i => [2 * (i + b)])) = Some (None, [2]) /\
+  find [] (AInt 1) true (EVal (-1)) None None = Some (None, [-1]).
 Proof.
-  split; [|vm_compute; auto].
-  split; [intros _; split; [apply allbitsb_correct; reflexivity | left; reflexivity]|].
-  intros (_ & _ & H). discriminate.
+  split; [|vm_compute; repeat split; auto].
+  intros _; split; [apply allbitsb_correct; reflexivity | left; reflexivity].
 Qed.
 
 Example C30_nonvacuous_gcp2 :
